@@ -71,6 +71,21 @@ def fill(shape, rng, ctr):
     return node(kind, op, ks)
 
 
+PROBES = [
+    (("var", "s"), ("num", "1"), ("num", "2")),
+    (("num", "10000000000000000"), ("num", "1"), ("num", "1")),
+    (("num", "8"), ("num", "4"), ("num", "2")),
+    (("kw", "FALSE"), ("kw", "TRUE"), ("kw", "NULL")),
+]
+
+
+def fill_fixed(shape, leaves):
+    if shape is None:
+        return next(leaves)
+    kind, op, kids = shape
+    return node(kind, op, [fill_fixed(k, leaves) for k in kids])
+
+
 class PROP(PropCheck):
     id = "C05"
     mismatch_is_failure = False
@@ -125,6 +140,16 @@ class PROP(PropCheck):
             mn, fl = self.build(e)
             out.append(Case(mn, meta={"ops": n, "full": fl}))
             fulls.append(fl)
+        # associativity / grouping probes: every pair of binary operators, both nestings, with leaf triples for which regrouping
+        # or re-ordering is visible (string + number + number, a sum that rounds differently when regrouped, 8 4 2, booleans)
+        for sh in shapes(2):
+            if sh[0] != "bin" or not any(k is not None and k[0] == "bin" for k in sh[2]):
+                continue
+            for leaves in PROBES:
+                e = fill_fixed(sh, iter(leaves))
+                mn, fl = self.build(e)
+                out.append(Case(mn, meta={"ops": 2, "full": fl, "probe": True}))
+                fulls.append(fl)
         # the fully parenthesised renderings are run here; the runner runs the minimal ones
         res = C.run_harness("run", [(f, {}) for f in fulls], self.budget, self.depth, tag="C05full")
         for c, r in zip(out, res):
